@@ -137,6 +137,16 @@ func init() {
 				Run: func(w *fw.W) { w.Trie(alpha.S3, 1, w.Pick(3, 4)) }, Eval: evalC10},
 			{Name: "grammar", Space: "every lower-case member of the C03 attack grammar (sub-sampled by construction: one separator/tail per payload in quick, all in thorough)", Share: 3,
 				Run: func(w *fw.W) { w.Each(len(gram), func(i int) { w.Item(gram[i], "") }) }, Eval: evalC10},
+			{Name: "literal-word-templates", Space: "14 statement templates x 34 literal words / prefix forms the lexer and folder compare case-insensitively (USER ... LOCALTIMESTAMP, IN, LIKE, NOT, INTO, IF, u&' n' e' x' b' 0x 0b 1e d-suffix q' nq')", Share: 2,
+				Run: func(w *fw.W) {
+					var items []string
+					for _, t := range c10Templates {
+						for _, wd := range c10Words {
+							items = append(items, strings.ReplaceAll(t, "W", wd))
+						}
+					}
+					w.Each(len(items), func(i int) { w.Item(items[i], "") })
+				}, Eval: evalC10},
 			{Name: "corpus-prefixes", Space: "lower-cased fixture cuts <= 48 bytes", Share: 2,
 				Run: func(w *fw.W) { w.Each(len(cuts), func(i int) { w.Item(cuts[i], "") }) }, Eval: evalC10},
 		},
@@ -147,3 +157,7 @@ func init() {
 	c := fw.Lookup("C10")
 	c.Phases = append(c.Phases, sqlExtraPhases(evalC10, false)...)
 }
+
+var c10Templates = []string{"1 or W()", "1 or W(1)", "1; W(1)", "1; W 1=1", "1 union select W()", "@W(1)", "1 W 1", "1 W (1)", "1 or 1 W (1)", "select W from x", "1 W outfile 'x'", "x' W outfile 'y", "1 or W", "1 or W=1 --"}
+var c10Words = []string{"user", "user_id", "user_name", "database", "password", "current_user", "current_date", "current_time", "current_timestamp", "localtime", "localtimestamp",
+	"in", "not in", "like", "not like", "not", "into", "if", "u&'s'", "n's'", "e's'", "x'1f'", "b'01'", "0x1f", "0b01", "1e5", "1.5d", "1f", "q'(s)'", "nq'[s]'", "sleep", "union", "collate a_b", "x'1f"}
